@@ -35,6 +35,7 @@ func (r *Run) libCall(st *State, fr *Frame, name string, recv Val, args []Val, s
 		}
 	}
 	e.libUsed[name] = true
+	st.Counters["calls:"+name] = App(SInt, "+", r.counter(st, "calls:"+name), IntLit(1))
 	r.atCall(st, fr, name, args, sig, in)
 	ret := func(vs ...Val) []*State {
 		r.setResult(st, fr, dst, vs)
@@ -185,7 +186,11 @@ func (r *Run) libCall(st *State, fr *Frame, name string, recv Val, args []Val, s
 		st.Counters[k] = App(SInt, "+", r.counter(st, k), IntLit(1))
 		return ret(stop)
 	case "context.afterFuncStop":
-		return ret(e.freshConst("stopped", SBool))
+		b := e.freshConst("stopped", SBool)
+		if r.curBound.S != "" {
+			st.Ghost["res:"+r.curBound.S+":0"] = b
+		}
+		return ret(b)
 	// ---------------------------------------------------------------- time
 	case "time.Now":
 		return ret(e.freshVal(st, sig.Results().At(0).Type(), "now"))
